@@ -139,6 +139,141 @@ class Obj:
         return "<Obj %s #%d>" % (self.cls.name if self.cls is not None else "?", self.id)
 
 
+class _GenClose(BaseException):
+    """thrown into a suspended generator body when its consumer abandons it (Python's GeneratorExit)"""
+
+
+class Gen:
+    """a generator object of the analysed program: the body of the generator function runs lazily, interleaved with its
+    consumer exactly as in Python (a second thread of control that only ever runs while the consumer waits in next()):
+    effects of the body and of the consumer's loop body appear in program order, and what the body has not yet done when
+    the consumer raises or breaks is not done."""
+    MAX_ITEMS = 512
+    _live = []
+
+    @classmethod
+    def close_abandoned(cls):
+        """generators left suspended by a finished (or aborted) run are unwound so that their threads end"""
+        live, cls._live = cls._live, []
+        for g in live:
+            try:
+                g.close()
+            except BaseException:       # noqa: whatever an abandoned body raises while unwinding is of no interest
+                pass
+
+    def __init__(self, interp, fn, env, depth):
+        import threading
+        Gen._live.append(self)
+        self.interp, self.fn, self.env, self.depth = interp, fn, env, depth
+        self.state = "new"
+        self._resume = threading.Semaphore(0)
+        self._yielded = threading.Semaphore(0)
+        self._out = None
+        self._closing = False
+        self._thread = None
+        self._dyn = None            # dynamic interpreter state of the body while it is suspended
+        env["@gen"] = self
+
+    def _swap_dyn(self):
+        it = self.interp
+        cur = (it.pure_depth, getattr(it.sym, "current_fn", None) if it.sym is not None else None)
+        if self._dyn is not None:
+            it.pure_depth = self._dyn[0]
+            if it.sym is not None:
+                it.sym.current_fn = self._dyn[1]
+        self._dyn = cur
+
+    def _main(self):
+        self._resume.acquire()
+        if self._closing:
+            self._out = ("closed",)
+        else:
+            try:
+                self.interp.block(self.fn.body, self.env, self.depth + 1)
+                self._out = ("stop", C_NONE)
+            except _Return as r:
+                self._out = ("stop", r.v)
+            except _GenClose:
+                self._out = ("closed",)
+            except BaseException as x:      # noqa: control-flow exceptions of the interpreter travel to the consumer
+                self._out = ("exc", x)
+        self.state = "done"
+        self._yielded.release()
+
+    def step(self):
+        """-> ('yield', value) | ('stop', return value); re-raises what the body raised"""
+        if self.state == "done":
+            return ("stop", C_NONE)
+        if self.state == "running":
+            raise _Raise(("ext", "ValueError", []), "ValueError: generator already executing")
+        if self._thread is None:
+            import threading
+            threading.stack_size(128 * 1024 * 1024)
+            self._thread = threading.Thread(target=self._main, daemon=True)
+            self._thread.start()
+            if self.interp.sym is not None:
+                self._dyn = (self.interp.pure_depth, getattr(self.fn, "name", None))
+        self.state = "running"
+        self._swap_dyn()
+        self._resume.release()
+        self._yielded.acquire()
+        self._swap_dyn()
+        out = self._out
+        if self.state != "done":
+            self.state = "suspended"
+        if out[0] == "exc":
+            raise out[1]
+        if out[0] == "closed":
+            return ("stop", C_NONE)
+        return out
+
+    def suspend(self, value):
+        """called from the body at a yield -> the value sent in (None)"""
+        self._out = ("yield", value)
+        self._yielded.release()
+        self._resume.acquire()
+        if self._closing:
+            raise _GenClose()
+        return C_NONE
+
+    def close(self):
+        if self.state == "done" or self._thread is None:
+            self.state = "done"
+            return
+        if self.state == "suspended":
+            self._closing = True
+            self.state = "running"
+            self._swap_dyn()
+            self._resume.release()
+            self._yielded.acquire()
+            self._swap_dyn()
+            self.state = "done"
+            if self._out and self._out[0] == "exc" and not isinstance(self._out[1], _GenClose):
+                raise self._out[1]
+
+
+def is_generator_function(fn):
+    if isinstance(fn, ast.Lambda):
+        return False
+    cached = getattr(fn, "_is_gen", None)
+    if cached is None:
+        def has_yield(n):
+            for c in ast.iter_child_nodes(n):
+                if isinstance(c, (ast.Yield, ast.YieldFrom)):
+                    return True
+                if isinstance(c, (ast.FunctionDef, ast.AsyncFunctionDef, ast.Lambda, ast.ClassDef)):
+                    continue
+                if has_yield(c):
+                    return True
+            return False
+        cached = any(has_yield(st) or isinstance(st, (ast.Yield, ast.YieldFrom)) for st in fn.body)
+        try:
+            fn._is_gen = cached
+        except Exception:
+            pass
+    return cached
+
+
 C_NONE = ("c", None)
 C_TRUE = ("c", True)
 C_FALSE = ("c", False)
@@ -195,6 +330,7 @@ class Interp:
         self.steps = 0
         self.api_misuse = []          # (node_ast, text)
         self.notes = []
+        self._gens = []
         self.hooks = hooks or {}
         self.asked = []               # atoms consulted in this run (order)
         self.fcount = {}
@@ -497,6 +633,10 @@ class Interp:
         try:
             if isinstance(fn, ast.Lambda):
                 return self.expr(fn.body, env, depth + 1)
+            if is_generator_function(fn):
+                g_ = Gen(self, fn, env, depth)
+                self._gens.append(g_)
+                return ("gen", g_)
             try:
                 self.block(fn.body, env, depth + 1)
             except _Return as r:
@@ -828,7 +968,28 @@ class Interp:
                 for h in s.handlers:
                     hn = []
                     matched = False
-                    if h.type is not None:
+                    if h.type is not None and not all(isinstance(t_, (ast.Name, ast.Attribute)) for t_ in (h.type.elts if isinstance(h.type, ast.Tuple) else [h.type])):
+                        # the caught classes are computed (`except tuple(k for k, _ in table)`): matched by value
+                        hv = self.force(self.expr(h.type, env, depth))
+                        if hv[0] == "fn" and hv[1] == "tuple" and len(hv[2]) == 1:
+                            hv = self.force(hv[2][0])
+                        hitems = self.iterate(hv) if hv[0] == "list" else [hv]
+                        for cv in hitems or []:
+                            cv = self.force(cv)
+                            if cv[0] == "cls":
+                                if raised_cls is not None:
+                                    matched = matched or cv[1] in self.repo.mro(raised_cls)
+                                else:
+                                    hn.append(cv[1].name)
+                            elif cv[0] in ("ext", "fn") and not cv[1].startswith(".") and "(" not in cv[1]:
+                                nm = cv[1].split(".")[-1]
+                                if nm in ("Exception", "BaseException"):
+                                    matched = True
+                                elif raised_cls is not None:
+                                    matched = matched or any(nm == b.split(".")[-1] for kk in self.repo.mro(raised_cls) for b in kk.ext_bases)
+                                else:
+                                    hn.append(nm)
+                    elif h.type is not None:
                         ts = h.type.elts if isinstance(h.type, ast.Tuple) else [h.type]
                         mod = env.get("@module")
                         for t in ts:
@@ -875,6 +1036,26 @@ class Interp:
 
     def for_loop(self, s, env, depth):
         it = self.force(self.expr(s.iter, env, depth))
+        if it[0] == "gen":
+            n_ = 0
+            try:
+                while True:
+                    r_ = it[1].step()
+                    if r_[0] == "stop":
+                        self.block(s.orelse, env, depth)
+                        return
+                    n_ += 1
+                    if n_ > Gen.MAX_ITEMS:
+                        raise Budget()
+                    self.assign(s.target, r_[1], env, depth)
+                    try:
+                        self.block(s.body, env, depth)
+                    except _Break:
+                        return
+                    except _Continue:
+                        continue
+            finally:
+                it[1].close()
         if it[0] == "items" and it[2] and it[1]:
             it = ("list", self.item_pairs(it[1]), True)
         items = self.iterate(it)
@@ -930,6 +1111,17 @@ class Interp:
             return [("c", x) for x in it[1]]
         if it[0] == "items" and not it[2]:
             return [("list", [("c", k), v]) for k, v in it[1].items()]
+        if it[0] == "gen":
+            out = []
+            try:
+                while len(out) < Gen.MAX_ITEMS:
+                    r_ = it[1].step()
+                    if r_[0] == "stop":
+                        return out
+                    out.append(r_[1])
+            finally:
+                it[1].close()
+            raise Budget()
         return None
 
     @staticmethod
@@ -1087,6 +1279,26 @@ class Interp:
             return self.call(e, env, depth)
         if isinstance(e, ast.Subscript):
             return self.subscript(e, env, depth)
+        if isinstance(e, ast.Yield) and isinstance(env.get("@gen"), Gen):
+            return env["@gen"].suspend(self.expr(e.value, env, depth) if e.value is not None else C_NONE)
+        if isinstance(e, ast.YieldFrom) and isinstance(env.get("@gen"), Gen):
+            sub = self.force(self.expr(e.value, env, depth))
+            if sub[0] == "gen":
+                try:
+                    while True:
+                        r_ = sub[1].step()
+                        if r_[0] == "stop":
+                            return r_[1]
+                        env["@gen"].suspend(r_[1])
+                finally:
+                    sub[1].close()
+            items_ = self.iterate(sub)
+            if items_ is not None:
+                for x_ in items_:
+                    env["@gen"].suspend(x_)
+                return C_NONE
+            env["@gen"].suspend(self.element_of(sub))
+            return C_NONE
         if isinstance(e, (ast.Tuple, ast.List)):
             out = []
             for x in e.elts:
@@ -1920,11 +2132,11 @@ class Interp:
                 return ("c", any(x[1] in self.repo.mro(v[1].cls) for x in cs))
             if v[0] == "node":
                 return ("c", any(x[0] == "cls" and x[1].name == "ProtocolTreeNode" for x in cs))
-            if v[0] in ("ext", "fn") and all(x[0] in ("ext", "cls") for x in cs) and not v[1].startswith("."):
+            if v[0] in ("ext", "fn") and all(x[0] in ("ext", "cls") or (x[0] == "fn" and not x[2] and "(" not in x[1] and not x[1].startswith(".")) for x in cs) and not v[1].startswith("."):
                 # an opaque object known by the name of its class against classes known by name
                 vn = v[1].split("(")[0].split(".")[-1]
                 if vn[:1].isupper():
-                    return ("c", any((x[0] == "ext" and x[1].split("(")[0].split(".")[-1] == vn) or (x[0] == "cls" and x[1].name == vn and False) for x in cs))
+                    return ("c", any((x[0] in ("ext", "fn") and x[1].split("(")[0].split(".")[-1] == vn) or (x[0] == "cls" and x[1].name == vn and False) for x in cs))
             vc = self.concrete(v) if v[0] == "atom" else v
             if vc[0] == "c" and all(x[0] == "ext" for x in cs):
                 names = [x[1] for x in cs]
@@ -2083,6 +2295,15 @@ class Interp:
                     return ("list", [("c", i) for i in r])
             except Exception:
                 pass
+        if name == "next" and a0 is not None and a0[0] == "gen":
+            r_ = a0[1].step()
+            if r_[0] == "yield":
+                return r_[1]
+            if len(args) > 1:
+                return args[1]
+            raise _Raise(("ext", "StopIteration", []), "StopIteration")
+        if name == "iter" and a0 is not None and a0[0] == "gen":
+            return a0
         if name == "next" and a0 is not None and a0[0] == "obj" and "@counter" in a0[1].fields:
             v = a0[1].fields["@counter"]
             a0[1].fields["@counter"] = v + a0[1].fields["@step"]
@@ -2571,6 +2792,8 @@ def enumerate_cells(run, domains=None, max_cells=20000, max_rounds=80):
             if n > max_cells:
                 raise Budget()
             try:
+                if Gen._live:
+                    Gen.close_abandoned()
                 res, interp = run(cell, domains)
             except NeedAtom as na:
                 a = na.atom
